@@ -253,30 +253,30 @@ def Integral (f : Rat → Nat → Option Rat) : Prop :=
 
 /-- the loop invariant: `done` tiles `[first, n)` numbered from 1, `todo` are the untouched existing
     measures from `n` on, the existing ones already passed are among `done` with their extents -/
-def Inv (Q : Measure → Prop) (first : Nat) (orig : List Measure) (tsEnd : Nat) (s : St) : Prop :=
+def Inv (Q : Measure → Prop) (first : Nat) (orig : List Measure) (lo tsEnd : Nat) (s : St) : Prop :=
   ∃ (n : Nat) (done todo consumed : List Measure),
-    s.pos = (n : Rat) ∧ n ≤ tsEnd ∧ s.ms = done ++ todo ∧ TN first 1 done n s.mc ∧ TD n todo ∧
+    s.pos = (n : Rat) ∧ lo ≤ n ∧ n ≤ tsEnd ∧ s.ms = done ++ todo ∧ TN first 1 done n s.mc ∧ TD n todo ∧
     orig = consumed ++ todo ∧ (consumed.map ext).Sublist (done.map ext) ∧
     ∀ m ∈ done, (∃ x ∈ orig, ext x = ext m) ∨ Q m
 
 /-- why an added measure `[start, stop)` of a stretch ending at `tsEnd` with `beats` beats per bar has the
-    extent it has: it ends where the bar-end map says a full bar from `start` ends, or earlier because the stretch
+    extent it has: it starts inside the stretch, ends where the bar-end map says a full bar from `start` ends, or earlier because the stretch
     ends (next signature change / end of the part) or an existing measure starts there -/
-def JSeg (f : Rat → Nat → Option Rat) (orig : List Measure) (tsEnd beats : Nat) (m : Measure) : Prop :=
-  ∃ w : Nat, f (m.start : Rat) beats = some (w : Rat) ∧ m.start < tsEnd ∧ m.stop ≤ w ∧ m.stop ≤ tsEnd ∧
+def JSeg (f : Rat → Nat → Option Rat) (orig : List Measure) (lo tsEnd beats : Nat) (m : Measure) : Prop :=
+  ∃ w : Nat, f (m.start : Rat) beats = some (w : Rat) ∧ lo ≤ m.start ∧ m.start < tsEnd ∧ m.stop ≤ w ∧ m.stop ≤ tsEnd ∧
     (m.stop = w ∨ m.stop = tsEnd ∨ ∃ x ∈ orig, x.start = m.stop)
 
 theorem seg_inv (f : Rat → Nat → Option Rat) (hf : Integral f) (Q : Measure → Prop) (first : Nat) (orig : List Measure)
-    (tsEnd beats : Nat) (hQ : ∀ m, JSeg f orig tsEnd beats m → Q m)
+    (lo tsEnd beats : Nat) (hQ : ∀ m, JSeg f orig lo tsEnd beats m → Q m)
     (hns : ∀ m ∈ orig, ¬ (m.start < tsEnd ∧ tsEnd < m.stop)) :
-    ∀ (fuel : Nat) (s s' : St), Inv Q first orig tsEnd s → segLoop f tsEnd beats fuel s = .ok s' →
-      Inv Q first orig tsEnd s' ∧ s'.pos = (tsEnd : Rat) := by
+    ∀ (fuel : Nat) (s s' : St), Inv Q first orig lo tsEnd s → segLoop f tsEnd beats fuel s = .ok s' →
+      Inv Q first orig lo tsEnd s' ∧ s'.pos = (tsEnd : Rat) := by
   intro fuel
   induction fuel with
   | zero => intro s s' _ h; simp [segLoop] at h
   | succ fuel ih =>
     intro s s' hinv h
-    obtain ⟨n, done, todo, consumed, hpos, hle, hms, htn, htd, horig, hsub, hq⟩ := hinv
+    obtain ⟨n, done, todo, consumed, hpos, hlo, hle, hms, htn, htd, horig, hsub, hq⟩ := hinv
     by_cases hlt : s.pos < (tsEnd : Rat)
     swap
     · rw [seg_stop _ _ _ _ _ hlt] at h
@@ -284,7 +284,7 @@ theorem seg_inv (f : Rat → Nat → Option Rat) (hf : Integral f) (Q : Measure 
       subst h
       have : ¬ (n < tsEnd) := by intro hc; apply hlt; rw [hpos]; exact_mod_cast hc
       have hn : n = tsEnd := by omega
-      exact ⟨⟨n, done, todo, consumed, hpos, hle, hms, htn, htd, horig, hsub, hq⟩, by rw [hpos, hn]⟩
+      exact ⟨⟨n, done, todo, consumed, hpos, hlo, hle, hms, htn, htd, horig, hsub, hq⟩, by rw [hpos, hn]⟩
     · have hnlt : n < tsEnd := by rw [hpos] at hlt; exact_mod_cast hlt
       cases hfv : f s.pos beats with
       | none =>
@@ -311,14 +311,14 @@ theorem seg_inv (f : Rat → Nat → Option Rat) (hf : Integral f) (Q : Measure 
         -- the case "a new measure up to the bar end"
         have caseNew : firstInWindow (n : Rat) ((min tsEnd w : Nat) : Rat) todo = none →
             (∀ a, todo.head? = some a → min tsEnd w ≤ a.start) →
-            Inv Q first orig tsEnd s' ∧ s'.pos = (tsEnd : Rat) := by
+            Inv Q first orig lo tsEnd s' ∧ s'.pos = (tsEnd : Rat) := by
           intro hnone hhead
           rw [hnone] at hwin
           rw [seg_new _ _ _ _ _ _ hlt hfv hwin, hme, hpos, floor_nat, floor_nat, hms] at h
           rw [insertMeasure_append _ _ _ (by intro a ha; exact hdle a ha)
             (by intro a ha; have := hhead a ha; show n < a.start; omega)] at h
           apply ih _ s' _ h
-          refine ⟨min tsEnd w, done ++ [⟨n, min tsEnd w, some s.mc⟩], todo, consumed, rfl, hhle, by simp, ?_, ?_, horig, ?_, ?_⟩
+          refine ⟨min tsEnd w, done ++ [⟨n, min tsEnd w, some s.mc⟩], todo, consumed, rfl, by omega, hhle, by simp, ?_, ?_, horig, ?_, ?_⟩
           · apply tn_append _ _ _ _ _ _ _ _ htn
             exact (tn_cons ..).mpr ⟨rfl, hnh, rfl, (tn_nil ..).mpr ⟨rfl, rfl⟩⟩
           · cases todo with
@@ -335,7 +335,7 @@ theorem seg_inv (f : Rat → Nat → Option Rat) (hf : Integral f) (Q : Measure 
               subst hm
               right
               apply hQ
-              refine ⟨w, hfw, hnlt, Nat.min_le_right _ _, hhle, ?_⟩
+              refine ⟨w, hfw, hlo, hnlt, Nat.min_le_right _ _, hhle, ?_⟩
               rcases Nat.le_total tsEnd w with hc | hc
               · right; left; exact Nat.min_eq_left hc
               · left; exact Nat.min_eq_right hc
@@ -358,7 +358,7 @@ theorem seg_inv (f : Rat → Nat → Option Rat) (hf : Integral f) (Q : Measure 
               have h5 : (m.stop : Rat) > s.pos := by rw [hpos]; exact_mod_cast (by omega : n < m.stop)
               rw [seg_at _ _ _ _ _ _ _ _ hlt hfv hwin h4 h5, hms, setNumber_append] at h
               apply ih _ s' _ h
-              refine ⟨m.stop, done ++ [{ m with number := some s.mc }], rest, consumed ++ [m], rfl, hstop, by simp, ?_, t3,
+              refine ⟨m.stop, done ++ [{ m with number := some s.mc }], rest, consumed ++ [m], rfl, by omega, hstop, by simp, ?_, t3,
                 by rw [horig]; simp, ?_, ?_⟩
               · apply tn_append _ _ _ _ _ _ _ _ htn
                 exact (tn_cons ..).mpr ⟨hat, t2, rfl, (tn_nil ..).mpr ⟨rfl, rfl⟩⟩
@@ -378,7 +378,7 @@ theorem seg_inv (f : Rat → Nat → Option Rat) (hf : Integral f) (Q : Measure 
                 (by intro a ha; simp only [List.head?_cons, Option.some.injEq] at ha; subst ha; exact hgt)] at h
               apply ih _ s' _ h
               refine ⟨m.stop, done ++ [⟨n, m.start, some s.mc⟩, { m with number := some (s.mc + 1) }], rest, consumed ++ [m],
-                rfl, hstop, by simp, ?_, t3, by rw [horig]; simp, ?_, ?_⟩
+                rfl, by omega, hstop, by simp, ?_, t3, by rw [horig]; simp, ?_, ?_⟩
               · apply tn_append _ _ _ _ _ _ _ _ htn
                 refine (tn_cons ..).mpr ⟨rfl, hgt, rfl, (tn_cons ..).mpr ⟨rfl, t2, rfl, (tn_nil ..).mpr ⟨rfl, ?_⟩⟩⟩
                 show s.mc + 1 + 1 = s.mc + 2
@@ -394,7 +394,7 @@ theorem seg_inv (f : Rat → Nat → Option Rat) (hf : Integral f) (Q : Measure 
                   · subst hx
                     right
                     apply hQ
-                    exact ⟨w, hfw, hnlt, by show m.start ≤ w; omega, by show m.start ≤ tsEnd; omega,
+                    exact ⟨w, hfw, hlo, hnlt, by show m.start ≤ w; omega, by show m.start ≤ tsEnd; omega,
                       Or.inr (Or.inr ⟨m, hmorig, rfl⟩)⟩
                   · subst hx
                     left; exact ⟨m, hmorig, rfl⟩
@@ -434,7 +434,7 @@ theorem run_inv (f : Rat → Nat → Option Rat) (hf : Integral f) (Q : Measure 
     (fuel : Nat) :
     ∀ (l : List (Nat × Nat × Nat)) (a z : Nat) (ms : List Measure) (mc : Int) (ms' : List Measure) (mc' : Int),
       SC a z l → (∀ m ∈ orig, ∀ x ∈ l, ¬ (m.start < x.2.1 ∧ x.2.1 < m.stop)) →
-      (∀ x ∈ l, ∀ m, JSeg f orig x.2.1 x.2.2 m → Q m) →
+      (∀ x ∈ l, ∀ m, JSeg f orig x.1 x.2.1 x.2.2 m → Q m) →
       InvAt Q first orig a ms mc → runStretches f fuel l ms mc = .ok (ms', mc') → InvAt Q first orig z ms' mc' := by
   intro l
   induction l with
@@ -455,9 +455,9 @@ theorem run_inv (f : Rat → Nat → Option Rat) (hf : Integral f) (Q : Measure 
     · cases h
     · rename_i st hst
       obtain ⟨done, todo, consumed, h1, h2, h3, h4, h5, h6⟩ := hinv
-      have hi : Inv Q first orig e ⟨(s : Rat), ms, mc⟩ := ⟨s, done, todo, consumed, rfl, hse, h1, h2, h3, h4, h5, h6⟩
-      obtain ⟨⟨n, done', todo', consumed', g0, _, g1, g2, g3, g4, g5, g6⟩, hpos⟩ :=
-        seg_inv f hf Q first orig e b (hQl (s, e, b) List.mem_cons_self)
+      have hi : Inv Q first orig s e ⟨(s : Rat), ms, mc⟩ := ⟨s, done, todo, consumed, rfl, le_refl _, hse, h1, h2, h3, h4, h5, h6⟩
+      obtain ⟨⟨n, done', todo', consumed', g0, _, _, g1, g2, g3, g4, g5, g6⟩, hpos⟩ :=
+        seg_inv f hf Q first orig s e b (hQl (s, e, b) List.mem_cons_self)
           (fun m hm => hns m hm (s, e, b) List.mem_cons_self) fuel _ st hi hst
       have hn : n = e := by
         have : (n : Rat) = (e : Rat) := by rw [← g0, hpos]
@@ -671,7 +671,7 @@ theorem add_measures_sound (f : Rat → Nat → Option Rat) (hf : Integral f) (p
     (hl : stretches p = some l) (hsc : SC p.first p.last l) (hex : ExistingOK p l)
     (h : addMeasuresWith f p fuel = .ok ms') :
     TN p.first 1 ms' p.last (1 + (ms'.length : Int)) ∧ (p.measures.map ext).Sublist (ms'.map ext) ∧
-    ∀ m ∈ ms', (∃ x ∈ p.measures, ext x = ext m) ∨ ∃ x ∈ l, JSeg f p.measures x.2.1 x.2.2 m := by
+    ∀ m ∈ ms', (∃ x ∈ p.measures, ext x = ext m) ∨ ∃ x ∈ l, JSeg f p.measures x.1 x.2.1 x.2.2 m := by
   unfold addMeasuresWith at h
   rw [hts] at h
   simp only [Bool.false_eq_true, if_false, hne, hl] at h
@@ -682,7 +682,7 @@ theorem add_measures_sound (f : Rat → Nat → Option Rat) (hf : Integral f) (p
     rw [hr] at h
     simp only [Except.map, Except.ok.injEq] at h
     subst h
-    have h0 : InvAt (fun m => ∃ x ∈ l, JSeg f p.measures x.2.1 x.2.2 m) p.first p.measures p.first p.measures 1 :=
+    have h0 : InvAt (fun m => ∃ x ∈ l, JSeg f p.measures x.1 x.2.1 x.2.2 m) p.first p.measures p.first p.measures 1 :=
       ⟨[], p.measures, [], rfl, (tn_nil ..).mpr ⟨rfl, rfl⟩, hex.ordered, rfl, List.Sublist.refl _,
         by intro m hm; simp at hm⟩
     obtain ⟨done, todo, consumed, g1, g2, g3, g4, g5, g6⟩ :=
@@ -709,7 +709,7 @@ theorem add_measures_sound' (f : Rat → Nat → Option Rat) (hf : Integral f) (
     (l : List (Nat × Nat × Nat)) (ms' : List Measure) (hok : TsOK p)
     (hl : stretches p = some l) (hex : ExistingOK p l) (h : addMeasuresWith f p fuel = .ok ms') :
     TN p.first 1 ms' p.last (1 + (ms'.length : Int)) ∧ (p.measures.map ext).Sublist (ms'.map ext) ∧
-    ∀ m ∈ ms', (∃ x ∈ p.measures, ext x = ext m) ∨ ∃ x ∈ l, JSeg f p.measures x.2.1 x.2.2 m :=
+    ∀ m ∈ ms', (∃ x ∈ p.measures, ext x = ext m) ∨ ∃ x ∈ l, JSeg f p.measures x.1 x.2.1 x.2.2 m :=
   add_measures_sound f hf p fuel l ms' (by
       cases hts : p.ts with
       | nil => exact absurd hts hok.nonempty
